@@ -727,10 +727,30 @@ namespace riddle
     virtual ast::multiplication_expression *new_multiplication_expression(const std::vector<const ast::expression *> &es) const noexcept { return new ast::multiplication_expression(es); }
     virtual ast::division_expression *new_division_expression(const std::vector<const ast::expression *> &es) const noexcept { return new ast::division_expression(es); }
 
+    /**
+     * Bounds the nesting of expressions, statements and classes, so that the recursion cannot exhaust the stack.
+     */
+    class nesting final
+    {
+    public:
+      nesting(parser &prs) : prs(prs)
+      {
+        if (++prs.depth > max_depth)
+          prs.error("nesting too deep..");
+      }
+      nesting(const nesting &orig) = delete;
+      ~nesting() { --prs.depth; }
+
+    private:
+      parser &prs;
+    };
+    static constexpr size_t max_depth = 1000; // the maximum allowed nesting..
+
   private:
     lexer lex;                // the current lexer..
     token *tk = nullptr;      // the current lookahead token..
     std::vector<token *> tks; // all the tokens parsed so far..
     size_t pos = 0;           // the current position within tks'..
+    size_t depth = 0;         // the current nesting..
   };
 } // namespace riddle
